@@ -2,4 +2,8 @@
 
 package main
 
+import "time"
+
 func verifPoint(string) {}
+
+func verifRotation(c <-chan time.Time) <-chan time.Time { return c }
